@@ -26,7 +26,7 @@ def plan(tier, seed):
     jobs = []
     nr = 16 if thorough else 8
     for s in range(nr):
-        jobs.append({"variant": "c" if s % 2 else "py", "part": "random", "shard": s, "nshards": nr, "params": {"n": 40000 if thorough else 3500}})
+        jobs.append({"variant": "c" if s % 2 else "py", "part": "random", "shard": s, "nshards": nr, "params": {"n": 100000 if thorough else 3500}})
     jobs.append({"variant": "c", "part": "shapes", "params": {}})
     jobs.append({"variant": "py", "part": "shapes", "params": {}})
     return jobs
